@@ -1248,7 +1248,7 @@ class Gen:
     # ------------------------------------------------------------ program
     def program(self):
         r = self.r
-        self.budget = 220
+        self.budget = 250
         top = Scope(None)
         prog = dict(recs=[("R", [("a", INT, None), ("b", FLOAT, None), ("next", REC, None)])],
                     enums=[("E", [("ea", 0, None), ("eb", 1, None), ("ec", 2, None)]),
@@ -1270,7 +1270,7 @@ class Gen:
         # main
         nargs = r.range(1, 2) if self.ch(self.k["main_args"]) else 0
         msig = ("func", [P("p", INT) for _ in range(nargs)], r.weighted([(INT, 70), (FLOAT, 12), (BOOL, 8), (LONG, 5), (DOUBLE, 5)]))
-        self.budget = 260
+        self.budget = 300
         mainf = self.func_decl("main", msig, top, self.k["nesting"], allow_rec=False, is_main=True)
         funcs.append(mainf)
         prog["funcs"] = funcs
